@@ -43,7 +43,7 @@ func bytesToInts(b []byte) []int64 {
 
 func (P) Facts() []core.Fact {
 	fs := []core.Fact{
-		{Name: "opcodeLengths", Value: txscript.VerifC13OpcodeLengths()},
+		{Name: "opcodeLengths", Value: opcodeLengthsObserved()},
 		{Name: "witnessScaleFactor", Value: int64(blockchain.WitnessScaleFactor)},
 		{Name: "maxPubKeysPerMultiSig", Value: int64(txscript.MaxPubKeysPerMultiSig)},
 		{Name: "lockTimeThreshold", Value: int64(txscript.LockTimeThreshold)},
@@ -70,12 +70,45 @@ func (P) Facts() []core.Fact {
 		{Name: "maxBlockWeight", Value: int64(blockchain.MaxBlockWeight)},
 		{Name: "maxBlockSigOpsCost", Value: int64(blockchain.MaxBlockSigOpsCost)},
 		{Name: "blockHeaderLen", Value: int64(wire.MaxBlockHeaderPayload)},
-		{Name: "serializedHeightVersion", Value: int64(blockchain.VerifC13SerializedHeightVersion())},
 	}
-	for k, v := range txscript.VerifC13Consts() {
-		fs = append(fs, core.Fact{Name: k, Value: v})
-	}
+	fs = append(fs,
+		core.Fact{Name: "baseSegwitWitnessVersion", Value: int64(txscript.BaseSegwitWitnessVersion)},
+		core.Fact{Name: "taprootWitnessVersion", Value: int64(txscript.TaprootWitnessVersion)})
 	return fs
+}
+
+// opcodeLengthsObserved derives the push-length table of the 256 opcodes from
+// the behaviour of the exported tokenizer (not from btcd's internal opcode
+// struct): n+1 for a direct push of n bytes, -k for a push whose length is in
+// the next k bytes, 1 for everything else.
+func opcodeLengthsObserved() []int64 {
+	parses := func(s []byte) bool {
+		t := txscript.MakeScriptTokenizer(0, s)
+		return t.Next() && t.Done() && t.Err() == nil
+	}
+	out := make([]int64, 256)
+	for op := 0; op < 256; op++ {
+		k := -1
+		for n := 0; n <= 80; n++ {
+			if parses(append([]byte{byte(op)}, make([]byte, n)...)) {
+				k = n
+				break
+			}
+		}
+		ones := make([]byte, k)
+		for i := range ones {
+			ones[i] = 1
+		}
+		switch {
+		case k <= 0:
+			out[op] = 1
+		case parses(append([]byte{byte(op)}, ones...)):
+			out[op] = int64(k) + 1 // the immediate bytes are data
+		default:
+			out[op] = -int64(k) // the immediate bytes are a length
+		}
+	}
+	return out
 }
 
 // ---------------------------------------------------------------- line format
@@ -435,22 +468,6 @@ func exec1(op string, a []string) string {
 			return "err:other:" + code.String()
 		}
 		return "err:other"
-	case "radd":
-		n := atou(a[0])
-		var roots []chainhash.Hash
-		for _, x := range splitList(a[1], ",") {
-			var h chainhash.Hash
-			copy(h[:], unhx(x))
-			roots = append(roots, h)
-		}
-		var h chainhash.Hash
-		copy(h[:], unhx(a[2]))
-		out, n2 := blockchain.VerifC13RollingAdd(n, roots, h)
-		parts := make([]string, len(out))
-		for i := range out {
-			parts[i] = hex.EncodeToString(out[i][:])
-		}
-		return fmt.Sprintf("n=%d roots=%s", n2, strings.Join(parts, ","))
 	case "shh":
 		return b01(blockchain.ShouldHaveSerializedBlockHeight(&wire.BlockHeader{Version: int32(atoi(a[0]))}))
 	case "smallint":
@@ -497,8 +514,6 @@ func exec1(op string, a []string) string {
 		return fmt.Sprintf("po=%s sh=%s iswp=%s wp=%s wpkh=%s wsh=%s tr=%s",
 			b01(txscript.IsPushOnlyScript(s)), b01(txscript.IsPayToScriptHash(s)), b01(txscript.IsWitnessProgram(s)), wp,
 			b01(txscript.IsPayToWitnessPubKeyHash(s)), b01(txscript.IsPayToWitnessScriptHash(s)), b01(txscript.IsPayToTaproot(s)))
-	case "npot":
-		return strconv.Itoa(blockchain.VerifC13NextPowerOfTwo(int(atoi(a[0]))))
 	case "commit":
 		c, ok := blockchain.ExtractWitnessCommitment(btcutil.NewTx(parseTx(a[0])))
 		if !ok {
@@ -557,7 +572,9 @@ func exec1(op string, a []string) string {
 		return strconv.FormatInt(blockchain.GetBlockWeight(blk), 10)
 	case "sigops":
 		s := unhx(a[0])
-		return fmt.Sprintf("fast=%d precise=%d", txscript.GetSigOpCount(s), txscript.VerifC13CountSigOpsV0(s, true))
+		// the accurate count through an exported path: the witness script of a P2WSH spend
+		p2wsh := append([]byte{0x00, 0x20}, make([]byte, 32)...)
+		return fmt.Sprintf("fast=%d precise=%d", txscript.GetSigOpCount(s), txscript.GetWitnessSigOpCount(nil, p2wsh, wire.TxWitness{s}))
 	case "p2sh":
 		// the third parameter is deprecated and must not matter
 		n1 := txscript.GetPreciseSigOpCount(unhx(a[0]), unhx(a[1]), true)
@@ -668,11 +685,7 @@ func exec1(op string, a []string) string {
 				view.Entries()[in.PreviousOutPoint] = blockchain.NewUtxoEntry(&wire.TxOut{Value: 1}, int32(atoi(g[1])), false)
 			}
 		}
-		sl, err := blockchain.VerifC13CalcSequenceLock(times, btcutil.NewTx(m), view, mempool)
-		sl2, err2 := blockchain.VerifC13CalcSequenceLockExported(times, btcutil.NewTx(m), view, mempool)
-		if (err == nil) != (err2 == nil) || (err == nil && *sl != *sl2) {
-			return "api-mismatch"
-		}
+		sl, err := blockchain.VerifC13CalcSequenceLockExported(times, btcutil.NewTx(m), view, mempool)
 		if err != nil {
 			if c, ok := ruleCode(err); ok && c == blockchain.ErrMissingTxOut {
 				return "err:missing"
